@@ -17,7 +17,7 @@
    tree back — exactly what the correspondence checks on the real code, double by double. *)
 From Coq Require Import ZArith List Bool String.
 From RL Require Import Base.Num Base.Str Base.Outcome Model.Dates Model.Calendar Model.Named
-  Model.Dual Model.Number Model.FX Model.Json Model.Entry Proofs.JsonP.
+  Model.Dual Model.Number Model.FX Model.Json Model.Entry Proofs.JsonP Base.NumR.
 Import ListNotations.
 Open Scope Z_scope.
 
@@ -63,6 +63,10 @@ Example C16_example : forall (T : Type) (H : Num T),
   let d := ODual (mkDual n1 [s2n "x"%string; s2n "y"%string] [n0; n1]) in
   ok_obj d /\ from_json_model (enc_obj d) = Ok d.
 Proof. exact c16_example. Qed.
+
+(* the hypothesis of C16_tree_roundtrip holds at the instance the theorems are read at (the reals) *)
+Example C16_reals_reflexive : forall x : Reals.Rdefinitions.R, neqb (Num := NumR.NumR) x x = true.
+Proof. intros x. cbn. unfold NumR.Reqb. destruct (Reals.RIneq.Req_EM_T x x); congruence. Qed.
 
 Print Assumptions C16_tree_roundtrip.
 Print Assumptions C16_tagged.
